@@ -178,6 +178,9 @@ structure Run where
   removedH : List Handle := []           -- removedNodesHandles (after marking)
   retries : Nat := 0
   conflicted : Bool := false
+  /-- observation: stop the run right before the `n`-th call of a class (a reader looks at the state there) -/
+  stopAt : Option (Cls × Nat) := none
+  halted : Bool := false
 deriving Inhabited
 
 /-- `conflict`: the body of the phase-1 loop reported "not successful"; the live rollback of the partial
@@ -215,6 +218,7 @@ def faultHit (f : Option Fault) (cls : Cls) (n : Nat) : Option FaultKind :=
 /-- One backend call: trace it, apply its effect unless it fails before, raise the error if it fails. -/
 def call (cls : Cls) (args : Args) (eff : State → State) (result : Args := .none) (natErr : State → Bool := fun _ => false) : M Unit := fun r =>
   let b := bumpOcc r.occs cls
+  if r.stopAt == some (cls, b.2) then .error { r with occs := b.1, halted := true } else
   match faultHit r.fault cls b.2 with
   | none =>
     if natErr r.s then .error { r with occs := b.1, trace := { cls := cls, args := args, res := .none, err := true } :: r.trace }
@@ -232,7 +236,7 @@ def logStep (st : Step) : M Unit := do
 def attempt (m : M Unit) : M Bool := fun r =>
   match m r with
   | .ok (_, r') => .ok (true, r')
-  | .error r' => .ok (false, r')
+  | .error r' => if r'.halted then .error r' else .ok (false, r')
 
 def regGet (ids : List UUID) : M (List Handle) := do
   let s ← getS
